@@ -890,6 +890,7 @@ type fltGen struct {
 	res    string
 	ents   []fltEnt
 	addrs  []string
+	neg    bool // negation-heavy shapes (nested $not over mixed $and / $or around address leaves)
 	odd    bool // allow the forms outside the documented surface (panics, $in on metadata, empty sets, ill-typed)
 	maxDep int
 }
@@ -980,6 +981,9 @@ func (g *fltGen) leaf() *fltNode {
 		switch r.Intn(3) {
 		case 0:
 			n.Key, n.Arg = Pick(r, []string{"id", "address", "account", "date", "type", "reverted", "insertion_date", "reference", "balance_any"}), ""
+			if n.Val.K == 't' && (n.Key == "address" || n.Key == "account" || n.Key == "type" || n.Key == "reference") {
+				n.Val = fltVal{K: 's', S: fltTimeStr(n.Val.T)} // on the wire a date IS a string: say so in the case
+			}
 		case 1:
 			n.Op = Pick(r, []string{"lt", "like", "in", "exists", "gte"})
 		default:
@@ -1112,6 +1116,129 @@ func (g *fltGen) node(depth int) *fltNode {
 	}
 }
 
+// ---- negation-heavy shapes (push-down decision): nested $not (double / triple), $not over $and / $or that mix an
+// address-carrying subtree (partial / prefix / exact / $in) with non-address leaves
+func fltIsAddrKey(k string) bool { return k == "address" || k == "account" || k == "source" || k == "destination" }
+func (g *fltGen) nonAddrLeaf() *fltNode {
+	for i := 0; i < 20; i++ {
+		if n := g.validLeaf(); !fltIsAddrKey(n.Key) {
+			return n
+		}
+	}
+	return g.metaLeaf()
+}
+func (g *fltGen) negAddrLeaf() *fltNode {
+	key := "address"
+	switch g.res {
+	case "tx":
+		key = Pick(g.r, []string{"account", "source", "destination"})
+	case "vol":
+		key = Pick(g.r, []string{"address", "account"})
+	case "log":
+		return g.validLeaf()
+	}
+	if g.r.Chance(70) { // mostly partial / prefix patterns: they are what triggers the lateral push-down
+		for i := 0; i < 8; i++ {
+			if p := genAddrPattern(g.r, g.addrs); refIsPartial(p) {
+				return &fltNode{Op: "match", Key: key, Val: fltVal{K: 's', S: p}}
+			}
+		}
+	}
+	return g.addrLeaf(key)
+}
+func fltNot(n *fltNode) *fltNode { return &fltNode{Op: "not", Kids: []*fltNode{n}} }
+func (g *fltGen) negNode(depth int) *fltNode {
+	r := g.r
+	if depth >= g.maxDep {
+		return g.negAddrLeaf()
+	}
+	if depth == 0 && g.maxDep >= 4 && r.Chance(35) {
+		// NOT(X AND NOT A) = NOT X OR A and relatives: the address sits under an EVEN number of $not inside a negated
+		// $and, next to a non-address branch; rows satisfying only NOT X must survive the dataset
+		a, x := g.negAddrLeaf(), g.nonAddrLeaf()
+		inner := fltNot(a)
+		switch r.Intn(4) {
+		case 0:
+			inner = fltNot(fltNot(fltNot(a)))
+		case 1:
+			inner = fltNot(&fltNode{Op: "and", Kids: []*fltNode{a, g.nonAddrLeaf()}})
+		}
+		kids := []*fltNode{x, inner}
+		if r.Bool() {
+			kids[0], kids[1] = kids[1], kids[0]
+		}
+		n := fltNot(&fltNode{Op: "and", Kids: kids})
+		if r.Chance(30) {
+			return &fltNode{Op: Pick(r, []string{"and", "or"}), Kids: []*fltNode{n, g.nonAddrLeaf()}}
+		}
+		return n
+	}
+	switch k := r.Intn(100); {
+	case k < 42:
+		return &fltNode{Op: "not", Kids: []*fltNode{g.negNode(depth + 1)}}
+	case k < 84:
+		n := &fltNode{Op: Pick(r, []string{"and", "or"}), Kids: []*fltNode{g.negNode(depth + 1), g.nonAddrLeaf()}}
+		if r.Chance(25) {
+			n.Kids = append(n.Kids, g.node(depth+1))
+		}
+		if r.Bool() {
+			n.Kids[0], n.Kids[1] = n.Kids[1], n.Kids[0]
+		}
+		return n
+	default:
+		return g.negAddrLeaf()
+	}
+}
+
+// fltNegStats: where do the address leaves sit? number of $not above (parity) x "mixed": some $and/$or ancestor has a
+// branch without any address leaf (the shapes the push-down decision must refuse when negated)
+func fltHasAddr(n *fltNode) bool {
+	if len(n.Kids) == 0 && n.Op != "and" && n.Op != "or" {
+		return n.Key == "address" || n.Key == "account"
+	}
+	for _, k := range n.Kids {
+		if fltHasAddr(k) {
+			return true
+		}
+	}
+	return false
+}
+func fltNegStats(n *fltNode, nots int, mixed bool, seen map[string]bool) {
+	switch n.Op {
+	case "not":
+		fltNegStats(n.Kids[0], nots+1, mixed, seen)
+	case "and", "or":
+		m := mixed
+		for _, k := range n.Kids {
+			if !fltHasAddr(k) {
+				m = true
+			}
+		}
+		for _, k := range n.Kids {
+			fltNegStats(k, nots, m, seen)
+		}
+	default:
+		if n.Key != "address" && n.Key != "account" {
+			return
+		}
+		par := "odd"
+		if nots%2 == 0 {
+			par = "even"
+			if nots == 0 {
+				par = "none"
+			}
+		}
+		mx := "plain"
+		if mixed {
+			mx = "mixed"
+		}
+		seen["negs_"+par+"_"+mx] = true
+		if nots >= 3 {
+			seen["negs_3plus"] = true
+		}
+	}
+}
+
 // ---------------------------------------------------------------- one case
 func fltNormWS(s string) string { return strings.Join(strings.Fields(s), " ") }
 
@@ -1172,7 +1299,16 @@ func fltCheck(out *Out, hr *HistRun, store *ledgerstore.Store, c fltCase, seen m
 			}
 		}
 	}
-	out.Case(cs, L(L("res", r.sx(c.Res)), L("ref", L(refKeys...)), L("where", Q(where))))
+	// push-down DECISION of the real code (canPushAddressFilterToLateral + collectAddressFilters), for every filter
+	push := L("push", "error")
+	if b, err := query.ParseJSON(c.F.json()); err == nil && b != nil {
+		if can, need, addrs, err := ledgerstore.VerifPushDown(b); err == nil {
+			push = L("push", b01(can), b01(need), qlist(addrs))
+		} else {
+			push = L("push", "error", Q(err.Error()))
+		}
+	}
+	out.Case(cs, L(L("res", r.sx(c.Res)), L("ref", L(refKeys...)), L("where", Q(where)), push))
 	// ---- statistics (input distribution)
 	out.Stats["cases"]++
 	out.Stats["res_"+c.Res]++
@@ -1200,6 +1336,14 @@ func fltCheck(out *Out, hr *HistRun, store *ledgerstore.Store, c fltCase, seen m
 			}
 		}
 	}, 0)
+	negSeen := map[string]bool{}
+	fltNegStats(c.F, 0, false, negSeen)
+	for k := range negSeen {
+		out.Stats[k]++
+		if c.Res == "vol" || c.Res == "agg" {
+			out.Stats[k+"_volagg"]++
+		}
+	}
 	total := len(ents)
 	if c.Res != "agg" {
 		switch {
@@ -1390,8 +1534,16 @@ func cmdFilters(args []string) int {
 			addrs = uniq(append(addrs, Pick(rr, fltAccounts)))
 			g := &fltGen{r: rr, res: c.Res, ents: ents, addrs: addrs, odd: odd, maxDep: maxDep}
 			// input shaping: up to 4 draws, keep the first filter selecting neither nothing nor everything (reference meaning)
+			g.neg = rr.Chance(12) || ((c.Res == "vol" || c.Res == "agg") && rr.Chance(40))
+			if g.neg {
+				out.Stats["neg_heavy"]++
+			}
 			for try := 0; try < 4; try++ {
-				c.F = g.node(0)
+				if g.neg {
+					c.F = g.negNode(0)
+				} else {
+					c.F = g.node(0)
+				}
 				nsel := 0
 				for _, e := range ents {
 					if refSat(c.Res, c.F, e) {
